@@ -32,6 +32,16 @@ such a call is **never due**: it can only resolve with the inner result (`Caller
 Service handles are not part of the model: the fate of an inner call is a function of its own
 caller's operations and the clock (`independent`), so it cannot depend on which handles of the
 service are alive (`manual dropsvc` is answered by the driver: later arrivals are `noop`).
+
+**Readiness** (lib.rs:165-167): `TimeLimiter::poll_ready` is `self.inner.poll_ready(cx).map_err(Inner)` —
+`Pending` and `Err` of the wrapped service propagate to the caller, who then makes no call at all
+(`Op.refused`: the only trace is the caller's answer, no record exists, no inner call is ever made
+for it); `call()` takes the very instance that was polled ready.  Back-pressure is therefore settled
+*before* `call()`: the response future never waits for readiness, and the deadline of a call made
+later (a retry under a fresh caller id) counts from ITS first poll.  The wrapped service's readiness
+itself (`Rd`: a script of answers, a recovery time after every call) is the harness's scripted
+inner service; `stepR` lets every arrival meet it and hands the service the operation it actually
+sees (`effOp`).
 -/
 namespace TR.TimeLimiter
 
@@ -240,7 +250,14 @@ inductive Op
   | poll (c : Nat)
   | drop (c : Nat)
   | adv (ms : Nat)
+  /-- caller `c` asked `poll_ready` while the wrapped service was not ready (`err = false`: `Pending`) or
+  had failed (`err = true`): the answer is handed on, the caller makes no call -/
+  | refused (c : Nat) (err : Bool)
 deriving Repr, DecidableEq
+
+/-- what a caller whose `poll_ready` was not `Ready(Ok)` is told (harness: `notready`, or the rendered
+readiness error of the scripted inner service, `IErr { kind: 9, v: 0 }` wrapped in `TimeLimiterError::Inner`) -/
+def refusal (err : Bool) : Res := if err then .inner 9 0 else .notReady
 
 def CRes.toRes (k : Nat) : CRes → Res
   | .ok => .ok k
@@ -306,9 +323,81 @@ def stepS (cfg : Cfg) (s : State) (op : Op) : State :=
       | none => { s with callers := s.callers ++ [(c, newCaller (effTimeout cfg tmo) sc)] }
   | .poll c => applyC s c (pollC cfg s.now)
   | .drop c => applyC s c (dropC cfg s.now)
+  | .refused c e =>
+      match lookup s.callers c with
+      | some _ => s
+      | none => { s with log := s.log ++ [Ev.result c (refusal e)] }
 
 def init : State := {}
 def run (cfg : Cfg) (ops : List Op) : State := ops.foldl (stepS cfg) init
+
+/-! ## readiness of the wrapped service
+
+The scripted inner service of the harness (`world.rs`, `Inner::strict_rec`): every `poll_ready` on a
+fresh clone first looks at the service-wide recovery (`busy`: after a call on any instance every
+instance is `Pending` until `recMs` after that call, when `recAll`; the per-instance recovery
+(`recAll = false`) is never met through the time limiter, which hands the called instance to the
+response future and leaves a fresh clone behind), then consumes one answer of the script (exhausted:
+ready). -/
+
+/-- one answer of the wrapped service's `poll_ready` -/
+inductive RAns
+  | ready
+  | pending
+  | err
+deriving Repr, DecidableEq
+
+structure Rd where
+  script : List RAns := []
+  recMs  : Nat := 0
+  recAll : Bool := false
+  busy   : Option Nat := none        -- `busy_until`
+deriving Repr, DecidableEq
+
+def Rd.isBusy (rd : Rd) (now : Nat) : Bool :=
+  match rd.busy with
+  | some t => decide (now < t)
+  | none => false
+
+/-- one `poll_ready` of a fresh clone of the wrapped service at `now` -/
+def Rd.answer (rd : Rd) (now : Nat) : RAns × Rd :=
+  if rd.isBusy now then (.pending, rd) else
+  match rd.script with
+  | [] => (.ready, rd)
+  | a :: tl => (a, { rd with script := tl })
+
+/-- the wrapped service has been called at `now` -/
+def Rd.called (rd : Rd) (now : Nat) : Rd :=
+  if rd.recAll = true ∧ 0 < rd.recMs then { rd with busy := some (now + rd.recMs) } else rd
+
+/-- the operation the service actually sees: the arrival of a new caller is `poll_ready` + `call()`
+only if the wrapped service answers `Ready(Ok)`; otherwise the answer is propagated (`refused`) -/
+def effOp (rd : Rd) (s : State) (op : Op) : Rd × Op :=
+  match op with
+  | .arrive c _ _ =>
+      match lookup s.callers c with
+      | some _ => (rd, op)
+      | none =>
+          match rd.answer s.now with
+          | (.ready, rd') => (rd', op)
+          | (.pending, rd') => (rd', .refused c false)
+          | (.err, rd') => (rd', .refused c true)
+  | _ => (rd, op)
+
+/-- one requested operation against the service over a wrapped service with readiness `p.1`; an inner
+call made in this step (a first poll) starts the wrapped service's recovery -/
+def stepR (cfg : Cfg) (p : Rd × State) (op : Op) : Rd × State :=
+  let s' := stepS cfg p.2 (effOp p.1 p.2 op).2
+  (if s'.serial = p.2.serial then (effOp p.1 p.2 op).1 else (effOp p.1 p.2 op).1.called p.2.now, s')
+
+def runR (cfg : Cfg) (rd : Rd) (ops : List Op) : Rd × State := ops.foldl (stepR cfg) (rd, init)
+
+/-- the operations the service sees when `ops` are requested from `p` on -/
+def effFrom (cfg : Cfg) (p : Rd × State) : List Op → List Op
+  | [] => []
+  | op :: tl => (effOp p.1 p.2 op).2 :: effFrom cfg (stepR cfg p op) tl
+
+def effOps (cfg : Cfg) (rd : Rd) (ops : List Op) : List Op := effFrom cfg (rd, init) ops
 
 /-! ## line protocol -/
 
@@ -325,6 +414,11 @@ def parseOp (ws : List String) : Option Op :=
   | "drop" :: c :: _ => some (.drop (c.toNat?.getD 0))
   | "adv" :: ms :: _ => some (.adv (ms.toNat?.getD 0))
   | _ => none
+
+/-- header `ready=<script>` ('p' pending, 'e' error, anything else ready), `rec=<ms>`, `recall=<0|1>` -/
+def parseRd (kv : Kv) : Rd :=
+  { script := (kv.str "ready" "").toList.map (fun ch => if ch = 'p' then RAns.pending else if ch = 'e' then .err else .ready),
+    recMs := kv.nat "rec" 0, recAll := kv.nat "recall" 0 != 0 }
 
 /-- `d<ms>` / `f<ms>` / `dmax` / `fmax` / `c0` / `c1`; anything else is skipped (as the harness does) -/
 def parseSetter (w : String) : Option Setter :=
@@ -343,18 +437,18 @@ def parseSetter (w : String) : Option Setter :=
 def parseChain (s : String) : List Setter := (s.splitOn ",").filterMap parseSetter
 
 def machine : Machine where
-  σ := Cfg × State
+  σ := Cfg × Rd × State
   init kv :=
     let cfg : Cfg :=
       match kv.get "chain" with
       | some ch => build (parseChain ch)
       | none => { timeout := ((kv.get "timeout").bind parseTmo).getD 5000, cancel := kv.nat "cancel" 1 != 0,
                   dyn := kv.nat "dyn" 0 != 0 }
-    (cfg, init)
-  step := fun (cfg, s) ws =>
+    (cfg, parseRd kv, init)
+  step := fun (cfg, rd, s) ws =>
     match parseOp ws with
-    | some op => let s' := stepS cfg s op; ((cfg, s'), s'.log.drop s.log.length)
-    | none => ((cfg, s), [])
-  now := fun (_, s) => s.now
+    | some op => let p := stepR cfg (rd, s) op; ((cfg, p), p.2.log.drop s.log.length)
+    | none => ((cfg, rd, s), [])
+  now := fun (_, _, s) => s.now
 
 end TR.TimeLimiter
